@@ -66,7 +66,7 @@ Theorem C14_progress : forall bytes p0 progs sched t,
 Proof. exact progress. Qed.
 Print Assumptions C14_progress.
 
-(* what the lock buys: the same calls without acquire/release admit a schedule on which a
+(* what the lock buys: the same calls without acquire/release allow a schedule on which a
    completed read returns another thread's bytes (two threads, one segment each:
    seek_0 seek_1 read_0 read_1) *)
 Theorem C14_without_lock_refuted :
